@@ -50,3 +50,17 @@ package robytes
 //@   props C18
 //@   binds size charset
 //@   ensures [draws-a-string-of-the-configured-size-and-charset|C18] result == random(size, charset)
+
+// The random-string helper itself: safety only (the drawing loop uses bit masks and a float logarithm, which are
+// uninterpreted here): the number of random bits per character is never zero (it divides 63).
+
+//@ func random
+//@   props C18
+//@   binds size charset
+//@   requires size > 0 && len(charset) > 0
+//@   trusted nopanic/index : idx = int(cache & mask) is non-negative because xrand.Int64() is and the mask is; bit operations are uninterpreted here
+//@   track loop.*
+//@   ensures [one-drawing-loop|C18] trace(loop.L0)
+
+//@ loop random#0
+//@   iteration ensures count(loop.ANY) == 0
